@@ -37,8 +37,10 @@ def c03(c):
         "'really established' means the kernel reported it (c03_dial_truthful); the real-engine tier cross-checks with getpeername",
         "UDP: the listener's session table is modelled (UdpSessions.v: create on the first datagram of an address, same address -> same "
         "session until its teardown removes it, then a new one) and every session is proved to be a run of the per-connection model "
-        "(c03_udp_session_is_connection), so at-most-once / open-before-close / first-cause hold per session; creation (map entry, idle timer, "
-        "open notification) is ONE step of the model although the code arms the idle timer before the open handler; the listener's own "
+        "(c03_udp_session_is_connection), so at-most-once / open-before-close / first-cause hold per session; creation (map entry, open "
+        "notification, idle timer) is ONE step of the model, matching readUDP's order since /repo 6bda07e (before it the timer was armed first and "
+        "a 1 ns UDPReadTimeout let the close notification overtake the open notification: D38, oracle udp-session-close-before-open on a stress "
+        "of thousands of one-datagram sessions with timeouts of 1 ns - 50 us); the listener's own "
         "teardown closing all sessions is not forced by the model (c03_udp_listener_close_partial). UDP client connections (net.DialUDP + "
         "AddConn, DialAsync(\"udp\")) are ordinary connections of the model; readUDP's use of Conn.closeErr as a scratch variable is not "
         "modelled - the model's notified error is the cause, and both tiers compare the implementation's notification AND IsClosed() with it",
@@ -84,7 +86,8 @@ MANIFEST = {
              "writability dispatch in the simulated tier. The two-connection descriptor-reuse scenario is tested, not modelled. "
              "Not covered: conn_std.go, poller_kqueue.go. Found while building this check and fixed in /repo: D35 (rejected dial reported twice, double "
              "wgConn.Done), D36 (Close inside the open handler of a UDP session deadlocks the poller), D37 (a connection closed by its open handler "
-             "knocks another connection with the same descriptor number out of the table).",
+             "knocks another connection with the same descriptor number out of the table), D38 (a UDP session's idle timer armed before its open "
+             "notification).",
         design="DESIGN.md section 4 C03, Appendix E"),
 }
 
